@@ -196,6 +196,18 @@ class AnyGuard:
         return e
 
 
+class AllGuard:
+    """Conjunction: the site must be guarded by every member spec (each possibly in a different frame)."""
+
+    def __init__(self, *specs):
+        self.specs = specs
+        self.name = "&".join(s.name for s in specs)
+
+    def pass_edges(self, model, chain, view):
+        # a conjunction has no single edge set; site_guarded evaluates the members one by one
+        return []
+
+
 def helper_guard_edges(model, chain, view, spec, depth=0):
     """Pass edges contributed by workspace helpers used as guards: `helper(..)?` where every non-error return
     of the helper is dominated by the guard `spec` evaluated inside the helper with its parameters resolved
@@ -232,6 +244,14 @@ def helper_guard_edges(model, chain, view, spec, depth=0):
 def site_guarded(model, chain, fn_path, block, spec):
     """Is (fn_path, block), reached through `chain`, dominated by pass edges of `spec` in some
     frame of the chain? Returns (True, frame description) or (False, None)."""
+    if isinstance(spec, AllGuard):
+        whys = []
+        for s in spec.specs:
+            ok, why = site_guarded(model, chain, fn_path, block, s)
+            if not ok:
+                return False, None
+            whys.append(why)
+        return True, "; ".join(whys)
     frames = [(c[0], c[1], chain[:i]) for i, c in enumerate(chain)] + [(fn_path, block, chain)]
     for f, b, sub in reversed(frames):
         v = model.view(f)
